@@ -94,6 +94,12 @@ def gen_inputs(ctx):
     for app, p_, i_ in (("hex", 16, 0), ("wif", 0, 0), ("mnemonic", 12, 1)) if not q else (("hex", 16, 0),):
         out.append(("Bip85", dict(rq(app, p_, i_, "kw-all"), master=masters[0], history=[rq(app, p_, i_, "kw-all")], bulk=1100 if q else 4400),
                     ("after-many-other-requests", app)))
+    # wallets come and go: dozens of other masters answered the same question in this process, were dropped and
+    # collected, before the judged one is built (object identities get re-used)
+    for app, p_ in (("mnemonic", 12), ("wif", 0), ("xprv", 0), ("hex", 32), ("pwd", 21)):
+        for r_ in range(1 if q else 4):
+            out.append(("Bip85", dict(rq(app, p_, r_, "kw-all"), master=masters[(r_ + 1) % len(masters)], churn=40 if q else 120),
+                        ("after-many-dropped-masters", app)))
     # two DIFFERENT masters with the SAME 4-byte fingerprint (cd9258b3, a birthday pair of 16-byte seeds), asked the same
     # question one after the other in one process: whatever is remembered between calls must be remembered per KEY,
     # not per short identifier
